@@ -333,6 +333,13 @@ func init() {
 		m.E.Assume("A-STAKING", "x/staking: validator status/tokens/shares and delegations are read from ghost staking state; Delegate/Unbond move tokens as specified in DESIGN.md 5.1; BondStatus Bonded = 3")
 		return Eq(term(stakingField(a[0], "Status")), IntLit(3))
 	}
+	models[sv+"IsUnbonding"] = func(m *Machine, f *Frame, cc *ssa.CallCommon, a []Val) Val {
+		return Eq(term(stakingField(a[0], "Status")), IntLit(2))
+	}
+	models[sv+"IsUnbonded"] = func(m *Machine, f *Frame, cc *ssa.CallCommon, a []Val) Val {
+		return Eq(term(stakingField(a[0], "Status")), IntLit(1))
+	}
+	models[sv+"IsJailed"] = func(m *Machine, f *Frame, cc *ssa.CallCommon, a []Val) Val { return stakingField(a[0], "Jailed") }
 	models[sv+"TokensFromShares"] = func(m *Machine, f *Frame, cc *ssa.CallCommon, a []Val) Val {
 		// (shares * tokens) / delegatorShares
 		tok := term(stakingField(a[0], "Tokens"))
